@@ -120,7 +120,7 @@ def σ : List (Event S) := [
 example : instOps 0 σ = rewriteOps cfg.1 cfg.2.1 cfg.2.2 Thm.Full.sampleChunks := rfl
 
 /-- Both interleaved rewriters produce `<div a=b c="d">x</div>!y`, every call succeeds, and the schedule is one
-    the Rust type system admits. -/
+    the Rust type system allows. -/
 example :
     let W := run sourceItems (World.fresh S) σ
     wellOwned (fun _ => none) σ = true ∧
